@@ -6,54 +6,7 @@ import (
 	"github.com/MixinNetwork/mixin/common"
 	"github.com/MixinNetwork/mixin/crypto"
 	vr "github.com/MixinNetwork/mixin/zzrt"
-	"github.com/dgraph-io/badger/v4"
 )
-
-// zzDump returns every (key, value) pair of the snapshots DB in key order.
-func zzDump(s *BadgerStore) [][2][]byte {
-	txn := s.snapshotsDB.NewTransaction(false)
-	defer txn.Discard()
-	it := txn.NewIterator(badger.DefaultIteratorOptions)
-	defer it.Close()
-	var out [][2][]byte
-	for it.Rewind(); it.Valid(); it.Next() {
-		v, err := it.Item().ValueCopy(nil)
-		if err != nil {
-			panic(err)
-		}
-		out = append(out, [2][]byte{it.Item().KeyCopy(nil), v})
-	}
-	return out
-}
-
-func zzSameDump(a, b [][2][]byte) bool {
-	if len(a) != len(b) {
-		return false
-	}
-	same := true
-	for i := range a {
-		same = vr.And(same, vr.And(bytes.Equal(a[i][0], b[i][0]), bytes.Equal(a[i][1], b[i][1])))
-	}
-	return same
-}
-
-func zzSet(s *BadgerStore, key, val []byte) {
-	txn := s.snapshotsDB.NewTransaction(true)
-	defer txn.Discard()
-	if err := txn.Set(key, val); err != nil {
-		panic(err)
-	}
-	if err := txn.Commit(); err != nil {
-		panic(err)
-	}
-}
-
-func zzHas(s *BadgerStore, key []byte) bool {
-	txn := s.snapshotsDB.NewTransaction(false)
-	defer txn.Discard()
-	_, err := txn.Get(key)
-	return err == nil
-}
 
 // ZZ_C03: a slot (unspent output / deposit id / mint batch) is reserved by at most one
 // pending transaction. A sequence of lock requests with arbitrary transaction hashes
@@ -167,7 +120,9 @@ func ZZ_C03() {
 			h, rerr := s.ReadDepositLock(dep)
 			vr.Assert(rerr == nil && h == holder, "deposit-names-the-holder")
 		case 2:
-			d, rerr := s.ReadLastMintDistribution(mint.Batch)
+			rt := s.snapshotsDB.NewTransaction(false)
+			d, rerr := readMintInput(rt, mint) // (ReadLastMintDistribution only reports finalized mints)
+			rt.Discard()
 			vr.Assert(rerr == nil && d != nil && d.Transaction == holder, "mint-batch-names-the-holder")
 		}
 	}
